@@ -101,6 +101,15 @@ class Check:
     def note(self, text):
         self.notes.append(text)
 
+    def snapshot(self):
+        return (len(self.obligations), len(self.violations))
+
+    def rollback(self, snap):
+        """drop what was recorded after the snapshot: verdicts of a summary that then turned out not to follow the code's shape
+        were computed under a wrong reading of it and count for nothing"""
+        del self.obligations[snap[0]:]
+        del self.violations[snap[1]:]
+
     def assume(self, text):
         if text not in self.assumptions:
             self.assumptions.append(text)
